@@ -20,9 +20,10 @@ OBLIG_TIMEOUT_MS = 10000
 
 
 class Clause:
-    def __init__(self, cid, text, tag="helper"):
+    def __init__(self, cid, text, tag="helper", guard=None):
         self.id = cid
         self.text = text
+        self.guard = guard  # clause is `implies(guard, ...)`: on paths where the guard is false it holds trivially
         self.tag = tag  # 'property' | 'helper' | 'canary'
 
     def __repr__(self):
@@ -54,12 +55,14 @@ class Contract:
         self.raises = dict(raises or {})  # exc class name -> [Clause]
         self.lets = dict(lets or {})  # post-state definitions
         self.pre_lets = dict(pre_lets or {})  # pre-state definitions
-        self.fresh = dict(fresh or {})  # name -> (T, defining expr in post-state)
+        self.fresh = dict(fresh or {})  # name -> (T, defining expr in post-state[, outcomes])
         self.returns = returns
         self.exc_attrs = dict(exc_attrs or {})
         self.wf = wf
         self.check_wf = check_wf
         self.env = dict(env or {})
+        self.optional_outcomes = ()
+        self.quantified_wf = ()  # dict types whose WF element invariant is also assumed as a quantified axiom
         self.witness = dict(witness or {})  # name -> (T, witness expr): existential in callers, witness term when proving
 
 
@@ -191,6 +194,12 @@ class Frames:
 def eval_modifies(I, ct, env, heap):
     fs = Frames()
     for m in ct.modifies:
+        cond = z3.BoolVal(True)
+        if isinstance(m, tuple):  # (pre-state condition, location): modifiable only when the condition holds
+            cond = eval_bool(I, m[0], env, heap, heap)
+            m = m[1]
+            if I.c.solver.check(cond) == z3.unsat:
+                continue
         if m.startswith("ghost.") or m.startswith("field:"):
             fs.ghost.add(m.split(":", 1)[-1])
             continue
@@ -204,10 +213,10 @@ def eval_modifies(I, ct, env, heap):
             if t is None:
                 raise Unsupported(f"modifies: no field {m}")
             name = I.fname(decl, node.attr)
-            fs.fields.setdefault(name, []).append(o.ref)
-            fs.sorts[name] = sort_of(t)
+            fs.fields.setdefault(name, []).append((o.ref, cond))
+            fs.sorts[name] = sort_of(t.args[0] if t.kind == "opt" else t)
             if t.kind == "opt":
-                fs.fields.setdefault(name + "?none", []).append(o.ref)
+                fs.fields.setdefault(name + "?none", []).append((o.ref, cond))
                 fs.sorts[name + "?none"] = BoolS
         elif isinstance(node, ast.Subscript):
             d = I.ev(node.value, fr)
@@ -216,7 +225,7 @@ def eval_modifies(I, ct, env, heap):
             key = None
             if not (isinstance(node.slice, ast.Constant) and node.slice.value is Ellipsis):
                 key = I.to_term(I.ev(node.slice, fr), d.typ.args[0])
-            fs.dicts.setdefault((I.dom_name(d.typ), I.map_name(d.typ), d.typ), []).append((d.ref, key))
+            fs.dicts.setdefault((I.dom_name(d.typ), I.map_name(d.typ), d.typ), []).append((d.ref, key, cond))
         else:
             raise Unsupported(f"modifies entry {m}")
     return fs
@@ -304,14 +313,14 @@ def frame_goals(I, fs, heap0, heap1):
             locs = dictfields.get(name, [])
             r = I.c.fresh("fr_d", Ref)
             k = I.c.fresh("fr_k", srt.range().domain())
-            allowed = [(r == d) if key is None else z3.And(r == d, k == key) for d, key in locs]
+            allowed = [z3.And(cnd, r == d) if key is None else z3.And(cnd, r == d, k == key) for d, key, cnd in locs]
             goal = z3.Implies(z3.And(z3.Select(al0, r), z3.Not(z3.Or(*allowed)) if allowed else z3.BoolVal(True)),
                               z3.Select(z3.Select(final, r), k) == z3.Select(z3.Select(init, r), k))
             goals.append((f"frame/{name}", goal))
         elif isinstance(srt, z3.ArraySortRef) and srt.domain() == Ref:
             refs = fs.fields.get(name, [])
             r = I.c.fresh("fr_o", Ref)
-            goal = z3.Implies(z3.And(z3.Select(al0, r), *[r != x for x in refs]), z3.Select(final, r) == z3.Select(init, r))
+            goal = z3.Implies(z3.And(z3.Select(al0, r), *[z3.Not(z3.And(cnd, r == x)) for x, cnd in refs]), z3.Select(final, r) == z3.Select(init, r))
             goals.append((f"frame/{name}", goal))
         else:
             goals.append((f"frame/{name}", final == init))
@@ -349,18 +358,19 @@ def build_env(I, ct, args_env, new_heap, old_heap, extra=None):
     return env
 
 
-def add_lets(I, ct, env, new_heap, old_heap, normal=True):
+def add_lets(I, ct, env, new_heap, old_heap, outcome="normal"):
     for k, (t, text) in ct.witness.items():
-        env[k] = eval_spec(I, text, env, new_heap, old_heap)
+        cw = getattr(I, "callee_witness", {})
+        # a witness produced by a callee's contract on this path (its existential) is the witness here too
+        env[k] = cw[k] if k in cw else eval_spec(I, text, env, new_heap, old_heap)
     for k, text in ct.lets.items():
         env[k] = eval_spec(I, text, env, new_heap, old_heap)
-    if normal:
-        for k, (t, text) in ct.fresh.items():
-            env[k] = eval_spec(I, text, env, new_heap, old_heap)
+    for k, fd in ct.fresh.items():
+        env[k] = eval_spec(I, fd["is"], env, new_heap, old_heap)
     return env
 
 
-def verify_unit(world, func, ct, receiver=None, unit_name=None, setup=None, max_paths=4000):
+def verify_unit(world, func, ct, receiver=None, unit_name=None, setup=None, max_paths=4000, case=()):
     """Symbolically execute `func` against contract `ct`; returns (obligations, stats)."""
     unit_name = unit_name or (func.qualname + (f"[{receiver.module.rsplit('_', 1)[-1]}]" if isinstance(receiver, ClassVal) else ""))
     all_obligs = []
@@ -382,6 +392,16 @@ def verify_unit(world, func, ct, receiver=None, unit_name=None, setup=None, max_
         for r in ct.requires:
             text = r.text if isinstance(r, Clause) else r
             ctx.assume(eval_bool(I, text, env, heap0, heap0))
+        for dt in ct.quantified_wf:
+            dq = z3.Const("d_wfq", Ref)
+            kq = z3.Const("k_wfq", sort_of(dt.args[0]))
+            dobj = Obj(dq, dt)
+            vq = z3.Select(I.d_map(dobj, heap0), kq)
+            inv = I.w.types.elem_inv(I, heap0, dt, kq, vq)
+            ctx.assume(z3.ForAll([dq, kq], z3.Implies(z3.And(z3.Select(I.alive(heap0), dq), z3.Select(I.d_dom(dobj, heap0), kq)),
+                                                      z3.And(z3.Select(I.alive(heap0), vq), *inv))))
+        for cs in case:  # one arm of an exhaustive case split of the unit
+            ctx.assume(eval_bool(I, cs, env, heap0, heap0))
         if ctx.solver.check() == z3.unsat:
             raise Unsupported(f"{unit_name}: requires is unsatisfiable (vacuous contract)")
         fs = eval_modifies(I, ct, env, heap0)
@@ -419,14 +439,23 @@ def verify_unit(world, func, ct, receiver=None, unit_name=None, setup=None, max_
             env2["result"] = val
         else:
             return outcome
-        env2 = add_lets(I, ct, env2, heap1, heap0, normal=(outcome != "raise"))
+        okey = "normal" if outcome != "raise" else val.cls.name
+        env2 = add_lets(I, ct, env2, heap1, heap0, outcome=okey)
+        guard_live = {}
         for cl in clauses:
+            if cl.guard is not None:
+                if cl.guard not in guard_live:
+                    g = eval_bool(I, cl.guard, env2, heap1, heap0)
+                    guard_live[cl.guard] = ctx.solver.check(g) != z3.unsat
+                if not guard_live[cl.guard]:
+                    stats["trivial_clauses"] = stats.get("trivial_clauses", 0) + 1
+                    continue  # implies(false, ...) on this path
             goal = eval_bool(I, cl.text, env2, heap1, heap0)
             check_goal(I, goal, cl.id, cl.tag, unit_name)
-        for k, (t, text) in ct.fresh.items():
-            if k in env2 and isinstance(env2[k], Obj):
-                check_goal(I, z3.Not(z3.Select(I.alive(heap0), env2[k].ref)), f"fresh/{k}", "helper", unit_name)
-        allowed_fresh = [env2[k].ref for k in ct.fresh if isinstance(env2.get(k), Obj)]
+        for k, fd in ct.fresh.items():
+            if okey in fd.get("outcomes", ["normal"]) and k in env2 and isinstance(env2[k], Obj):
+                when = eval_bool(I, fd.get("when", "True"), env2, heap0, heap0)
+                check_goal(I, z3.Implies(when, z3.Not(z3.Select(I.alive(heap0), env2[k].ref))), f"fresh/{k}", "helper", unit_name)
         for name, goal in frame_goals(I, fs, heap0, heap1):
             check_goal(I, goal, name, "helper", unit_name)
         if ct.check_wf:
@@ -443,6 +472,15 @@ def verify_unit(world, func, ct, receiver=None, unit_name=None, setup=None, max_
     for ctx, out in paths:
         all_obligs.extend(ctx.obligs)
         stats["feas_unknown"] += ctx.feas_unknown
+    # vacuity guard: every outcome the contract describes must be reached by at least one feasible path
+    if "unsupported" not in stats and not case:
+        wanted = ["normal"] + [f"raise:{k}" for k in ct.raises]
+        seen = set(stats["outcomes"])
+        for k in wanted:
+            hit = k in seen or (k == "normal" and "yield" in seen) or any(
+                s.startswith("raise:") and world.lib.exc_class(s[6:]).is_subclass_of(world.lib.exc_class(k[6:])) for s in seen if k.startswith("raise:"))
+            if not hit and k not in getattr(ct, "optional_outcomes", ()):
+                all_obligs.append(Oblig(f"cover/{k}", "cover", "uncovered", 0.0, [], None, "z3", unit_name))
     stats["secs"] = round(time.time() - t0, 3)
     return all_obligs, stats
 
@@ -474,20 +512,20 @@ def apply_contract(I, ct, f, args, kwargs, fr, node):
     # havoc the frame
     for name, refs in fs.fields.items():
         a = c.heap.get(name, arr(Ref, fs.sorts[name]))
-        for r in refs:
-            a = z3.Store(a, r, c.fresh("hv", fs.sorts[name]))
+        for r, cnd in refs:
+            a = z3.Store(a, r, z3.If(cnd, c.fresh("hv", fs.sorts[name]), z3.Select(a, r)))
         c.heap.set(name, a)
     for (dn, mn, dt), locs in fs.dicts.items():
         ks, vs = sort_of(dt.args[0]), sort_of(dt.args[1])
         da = c.heap.get(dn, arr(Ref, arr(ks, BoolS)))
         ma = c.heap.get(mn, arr(Ref, arr(ks, vs)))
-        for d, key in locs:
+        for d, key, cnd in locs:
             if key is None:
-                da = z3.Store(da, d, c.fresh("hvdom", arr(ks, BoolS)))
-                ma = z3.Store(ma, d, c.fresh("hvmap", arr(ks, vs)))
+                da = z3.Store(da, d, z3.If(cnd, c.fresh("hvdom", arr(ks, BoolS)), z3.Select(da, d)))
+                ma = z3.Store(ma, d, z3.If(cnd, c.fresh("hvmap", arr(ks, vs)), z3.Select(ma, d)))
             else:
-                da = z3.Store(da, d, z3.Store(z3.Select(da, d), key, c.fresh("hvin", BoolS)))
-                ma = z3.Store(ma, d, z3.Store(z3.Select(ma, d), key, c.fresh("hvv", vs)))
+                da = z3.Store(da, d, z3.Store(z3.Select(da, d), key, z3.If(cnd, c.fresh("hvin", BoolS), z3.Select(z3.Select(da, d), key))))
+                ma = z3.Store(ma, d, z3.Store(z3.Select(ma, d), key, z3.If(cnd, c.fresh("hvv", vs), z3.Select(z3.Select(ma, d), key))))
         c.heap.set(dn, da)
         c.heap.set(mn, ma)
     for g in fs.ghost:
@@ -498,15 +536,7 @@ def apply_contract(I, ct, f, args, kwargs, fr, node):
         c.heap.set(g, c.fresh("hvg_" + g, cur.sort()))
     env2 = dict(env)
     if out == "normal":
-        for k, (t, text) in ct.fresh.items():
-            o = I.alloc(t)
-            fresh_objs[k] = o
-            # its fields are unconstrained: havoc every declared field of the class at this ref
-            havoc_object(I, o)
-            if t.kind == "dict":
-                ks_, vs_ = sort_of(t.args[0]), sort_of(t.args[1])
-                I.d_set_dom(o, c.fresh("hvdom", arr(ks_, BoolS)))
-                I.d_set_map(o, c.fresh("hvmap", arr(ks_, vs_)))
+        alloc_fresh(I, ct, "normal", fresh_objs)
         res = None
         if ct.returns is not None:
             if isinstance(ct.returns, str):
@@ -520,15 +550,19 @@ def apply_contract(I, ct, f, args, kwargs, fr, node):
             res = env2["result"]
         for k, (t, text) in ct.witness.items():
             env2[k] = I.wrap(c.fresh(k, sort_of(t)), t)
+            I.__dict__.setdefault("callee_witness", {})[k] = env2[k]
         for k, text in ct.lets.items():
             env2[k] = eval_spec(I, text, env2, post, pre)
-        for k, (t, text) in ct.fresh.items():
-            defd = eval_spec(I, text, env2, post, pre)
-            c.assume(defd.ref == fresh_objs[k].ref)
-            env2[k] = fresh_objs[k]
+        bind_fresh(I, ct, "normal", fresh_objs, env2, post, pre)
+        glive = {}
         for cl in ct.ensures:
             if cl.tag == "canary":
                 continue
+            if cl.guard is not None:
+                if cl.guard not in glive:
+                    glive[cl.guard] = c.solver.check(eval_bool(I, cl.guard, env2, post, pre)) != z3.unsat
+                if not glive[cl.guard]:
+                    continue
             c.assume(eval_bool(I, cl.text, env2, post, pre))
         if c.solver.check() == z3.unsat:
             raise Infeasible()
@@ -545,20 +579,55 @@ def apply_contract(I, ct, f, args, kwargs, fr, node):
     env2["exc"] = e
     for k, (t, text) in ct.witness.items():
         env2[k] = I.wrap(c.fresh(k, sort_of(t)), t)
+        I.__dict__.setdefault("callee_witness", {})[k] = env2[k]
+    alloc_fresh(I, ct, out, fresh_objs)
     for k, text in ct.lets.items():
         try:
             env2[k] = eval_spec(I, text, env2, c.heap, pre)
         except Unsupported:
             pass
+    bind_fresh(I, ct, out, fresh_objs, env2, c.heap, pre)
+    glive = {}
     for cl in ct.raises[out]:
         if cl.tag == "canary":
             continue
+        if cl.guard is not None:
+            if cl.guard not in glive:
+                glive[cl.guard] = c.solver.check(eval_bool(I, cl.guard, env2, c.heap, pre)) != z3.unsat
+            if not glive[cl.guard]:
+                continue
         c.assume(eval_bool(I, cl.text, env2, c.heap, pre))
     if c.solver.check() == z3.unsat:
         raise Infeasible()
     if ct.wf:
         c.wf_snaps.append(c.heap.snapshot())
     raise RaiseSig(e)
+
+
+def alloc_fresh(I, ct, outcome, fresh_objs):
+    c = I.c
+    for k, fd in ct.fresh.items():
+        if outcome not in fd.get("outcomes", ["normal"]):
+            continue
+        t = fd["type"]
+        o = I.alloc(t)
+        fresh_objs[k] = o
+        havoc_object(I, o)  # its fields are unconstrained
+        if t.kind == "dict":
+            ks_, vs_ = sort_of(t.args[0]), sort_of(t.args[1])
+            I.d_set_dom(o, c.fresh("hvdom", arr(ks_, BoolS)))
+            I.d_set_map(o, c.fresh("hvmap", arr(ks_, vs_)))
+
+
+def bind_fresh(I, ct, outcome, fresh_objs, env2, post, pre):
+    for k, fd in ct.fresh.items():
+        defd = eval_spec(I, fd["is"], env2, post, pre)
+        env2[k] = defd
+        if k not in fresh_objs:
+            continue
+        when = eval_bool(I, fd.get("when", "True"), env2, pre, pre)
+        I.c.assume(z3.Implies(when, defd.ref == fresh_objs[k].ref))
+        env2[k] = defd
 
 
 def havoc_object(I, o):
@@ -659,6 +728,7 @@ def exec_symbolic_for(I, s, it, fr):
     check_goal(I, z3.And(I.d_dom(d) == snapdom), "loop/iterated-dict-not-resized", "helper", getattr(I, "unit_name", ""))
     # 3. either the loop is finished ...
     if c.branch(done == snapdom, "loop-exit"):
+        I.last_done = done
         I.block(s.orelse, fr)
         return
     # ... or take one more arbitrary iteration
@@ -669,6 +739,7 @@ def exec_symbolic_for(I, s, it, fr):
     vval = I.wrap(z3.Select(snapmap, k), vt)
     item = {"dict_items": (kval, vval), "dict_values": vval, "dict_keys": kval}[mode]
     I.assign(s.target, item, fr)
+    I.last_done = done
     try:
         I.block(s.body, fr)
     except ContinueSig:
@@ -684,20 +755,20 @@ def _havoc(I, fs):
     c = I.c
     for name, refs in fs.fields.items():
         a = c.heap.get(name, arr(Ref, fs.sorts[name]))
-        for r in refs:
-            a = z3.Store(a, r, c.fresh("hv", fs.sorts[name]))
+        for r, cnd in refs:
+            a = z3.Store(a, r, z3.If(cnd, c.fresh("hv", fs.sorts[name]), z3.Select(a, r)))
         c.heap.set(name, a)
     for (dn, mn, dt), locs in fs.dicts.items():
         ks, vs = sort_of(dt.args[0]), sort_of(dt.args[1])
         da = c.heap.get(dn, arr(Ref, arr(ks, BoolS)))
         ma = c.heap.get(mn, arr(Ref, arr(ks, vs)))
-        for d, key in locs:
+        for d, key, cnd in locs:
             if key is None:
-                da = z3.Store(da, d, c.fresh("hvdom", arr(ks, BoolS)))
-                ma = z3.Store(ma, d, c.fresh("hvmap", arr(ks, vs)))
+                da = z3.Store(da, d, z3.If(cnd, c.fresh("hvdom", arr(ks, BoolS)), z3.Select(da, d)))
+                ma = z3.Store(ma, d, z3.If(cnd, c.fresh("hvmap", arr(ks, vs)), z3.Select(ma, d)))
             else:
-                da = z3.Store(da, d, z3.Store(z3.Select(da, d), key, c.fresh("hvin", BoolS)))
-                ma = z3.Store(ma, d, z3.Store(z3.Select(ma, d), key, c.fresh("hvv", vs)))
+                da = z3.Store(da, d, z3.Store(z3.Select(da, d), key, z3.If(cnd, c.fresh("hvin", BoolS), z3.Select(z3.Select(da, d), key))))
+                ma = z3.Store(ma, d, z3.Store(z3.Select(ma, d), key, z3.If(cnd, c.fresh("hvv", vs), z3.Select(z3.Select(ma, d), key))))
         c.heap.set(dn, da)
         c.heap.set(mn, ma)
     for g in fs.ghost:
